@@ -254,7 +254,7 @@ def rand_doc(rng, budget, classic=False, depth=0):
     if r < 0.50:
         return ('group', rand_doc(rng, budget - 1, classic, depth + 1))
     if r < 0.60:
-        return ('nest', rng.choice([-2, -1, 0, 1, 2, 4]), rand_doc(rng, budget - 1, classic, depth + 1))
+        return ('nest', rng.choice([-2, -1, 0, 1, 2, 4, 4, 2, 1, 45, 90]), rand_doc(rng, budget - 1, classic, depth + 1))
     if r < 0.66:
         return ('ab', rand_doc(rng, budget - 1, classic, depth + 1))
     if r < 0.72:
